@@ -44,6 +44,7 @@ HOSTILE = [
 ]
 HOSTILE_VARS = ['True', 'False', 'None', '__debug__', 'ATOM_NIL', '__builtins__', '__import__', '__name__', '__class__',
                 'Exception', 'ATOM_NIL_', 'True_', '_', '__', 'Query', 'Unify', '_query', '_atom', 'X', 'Y']
+HOSTILE_VARS = HOSTILE_VARS + [v for v in gen.NEAR_RESERVED if v not in HOSTILE_VARS]
 IDENT_HEADS = ['p', 'q', 'query', 'atom', 'unify', 'eval', 'exec', 'variable', 'functor', 'makelist', 'class', 'import',
                'lambda', 'x_1', 'p_n', '__init__', 'os', 'sys']
 
